@@ -94,6 +94,24 @@ CHECKS["C04"] = ("other",
     "Kernel bounds: rule names of 1..3 identifier characters, indices 1..999. The by-product is not a verdict of the technique. Known findings F4 (name collision) and F13 (label clash made by -optimize-grammar) are re-confirmed natively.",
     TECH + "kernel: symbolic rule names and indices through the real funcName; rest: concrete build/vet by-product", "§3 C04, §5")
 
+# additions of later rounds (appended to the notes above)
+EXTRA = {
+    "C05": "Lemma store holds a plain value and a value implementing Cloner that blocks change in place; lemmas AndCode, NotCode, StateCode (block boolean decides, nothing consumed, error recorded once, store changes gone after predicate blocks and kept after state blocks).",
+    "C02": "Lemmas AndCode, NotCode, StateCode added.",
+    "C06": "One-step lemma Memo: two evaluations of an expression at one position agree (value, outcome, end) and Memoize(true) does not evaluate twice.",
+    "C07": "(a) asserts only about the grammar rebuilt from real ast nodes (PrepareGrammar and BuildParser); the run over lazy slots only decides which slots matter and may panic on or ignore the harness type without raising an alarm.",
+    "C08": "Random LR grammars include recursion through helper rules whose names sort before or after the leader (direct and indirect alternatives mixed).",
+    "C09": "Random class merges include rules that are choices over an earlier leaf rule, referenced next to that leaf.",
+    "C11": "Left-recursive grammars with failing blocks (three symbolic invocations per block); AddErr lemma also from a list in which the same error was recorded and rolled back.",
+    "C13": "Harness_C13main: the real main() (package flag interpreted; input, output and imports.Process stubbed; exit mocked) on 6 grammars x 8 concrete (-optimize-grammar, -support-left-recursion, -x) triples with the other flags, the alternate entry points and one appended byte symbolic; oracle = stage results of the replayed pipeline; natively replayed on real files with the real goimports. The static-code template expansion is executed (native regexp/text/template intrinsics) in the main() harness. Known finding F19 (-no-recover exposes a panic of the front end's own action on an unterminated code block).",
+    "C14": "Lemma RecoveryNested (a throw inside the running recovery expression is handled by the handler that is still in force); grammars tr_resume, tr_resume2.",
+    "C15": "Seeded grammars with 2-4 classes each that share Unicode class names, characters and ranges and differ in ^ and i (24 / 300).",
+    "C16": "Second harness: the Stats collector handed to Statistics already counts 0..40 expressions (symbolic), budget 1..16, option order symbolic.",
+    "C18": "Option values are built once and handed to every call; fourth family: the three calls through ParseReader, the first value compared with a deep copy taken when it was returned.",
+    "C19": "The static-code template expansion is executed in the engine (native regexp/text/template intrinsics), so the compared output is the complete file before goimports. Harness_C19seq: X built after Y in one process equals X built in a fresh process (symFreshProcess; two native processes confirm).",
+    "C20": "CRLF variants of the round-trip texts; free holes also inside a code block and inside a raw string (alphabet with CR and back quote).",
+}
+
 NOT_BUILT = {
 }
 
@@ -113,7 +131,7 @@ def main():
             "replay_cmd_template": "./check replay {path}",
             "engine": "gosym",
             "level_claimed": {"category": cat, "text": text, "design_ref": "DESIGN.md " + ref},
-            "level_note": note,
+            "level_note": (note + " " + EXTRA.get(pid, "")).strip(),
             "technique": tech,
         })
     m = {
